@@ -156,7 +156,13 @@ func runC13One(l *Layout, muts []Mut, opts ReadOpts, st *Stats) (oc c13Outcome, 
 			return
 		}
 		if rootsFirst {
-			rd.Roots() // a caller that looked at the roots before inspecting
+			// a caller that looked at the roots before inspecting - and then put the slice it was handed
+			// to other use: what Inspect reports is the header's roots, not whatever that slice holds now
+			if rs, err := rd.Roots(); err == nil {
+				for i := range rs {
+					rs[i] = scribbleCid
+				}
+			}
 		}
 		stats, ierr = rd.Inspect(true)
 	})
